@@ -52,7 +52,7 @@ def run_parts(ctx, parts):
 
 # --------------------------------------------------------------------------- io engine (coq/io)
 
-IO_OBLIGATIONS = ["io_tx_exactly_once", "io_tx_prefix", "io_rx_is_filter", "io_rx_insert", "io_rx_only_source"]
+IO_OBLIGATIONS = ["io_tx_exactly_once", "io_tx_prefix", "io_rx_is_filter", "io_rx_insert", "io_rx_only_source", "io_rx_noop_insert"]
 PARTS["io"] = ("^TestVerifUDPIo$", "UDPio.report.json",
                "UDPSession.tx called directly on prepared queues of 0-40 datagrams with a scripted kernel (any split into accepted prefixes, "
                "failures at any call) and UDPSession.readLoop run on scripted recvmmsg batches (7 address shapes incl. equal-but-distinct "
